@@ -89,7 +89,9 @@ def binding_selftest(ctx, cases):
     with open(path, "w") as f:
         f.write(json.dumps(picked) + "\n")
     r = ctx.replay("kxps", path)
-    if r[0]["ok"] or "10s window sampled" not in r[0].get("what", ""):
+    # only an ACCEPTED corruption shows a replayer that compares nothing; a rejection for another reason means the
+    # library under test already misbehaves on this behaviour, which is the main stage's verdict to give
+    if r[0]["ok"]:
         raise vlib.Broken("self-test: a behaviour with a corrupted expected rate was not rejected: %r" % r[0])
 
 
